@@ -488,6 +488,8 @@ def corpus_general(tier, seed, rnd, n=None):
                  dtype=rnd.choice([None, None, "float64", "float32"]),
                  mcmc_steps=rnd.choice([1, 2, 3]),
                  cut=rnd.choice([None, None, 0.2, 0.9]))      # likelihood exactly zero on part of the prior support
+        if c["dtype"] == "float32" and i % 2 == 0:
+            c["ret64"] = True       # the user's functions evaluate in double precision whatever they are handed
         if smp == "minipcn_smc":
             c["min_step"] = rnd.choice([None, None, 0.1])
             c["max_n_steps"] = rnd.choice([None, None, 3])
@@ -502,7 +504,9 @@ def corpus_general(tier, seed, rnd, n=None):
         if c["dims"] == 1 and c["precond"] == "periodic":
             pass
         if ns == "torch" and c["dtype"] is None:
-            c["dtype"] = "float32"   # torch default; requested explicitly so that width is known
+            c["dtype"] = "float32"
+        if c["dtype"] == "float32" and i % 2 == 0:
+            c["ret64"] = True   # torch default; requested explicitly so that width is known
         if ns == "jax" and c["dtype"] is None:
             c["dtype"] = "float64"
         specs.append(c)
@@ -524,6 +528,8 @@ def corpus_calls(tier, seed, rnd, n=None, repeat=False):
                  dtype=rnd.choice([None, "float64", "float32"]), split=rnd.choice([1, 2]))
         if ns == "torch" and c["dtype"] is None:
             c["dtype"] = "float32"
+        if c["dtype"] == "float32" and i % 2 == 0:
+            c["ret64"] = True
         if ns == "jax" and c["dtype"] is None:
             c["dtype"] = "float64"
         if smp in ("minipcn", "emcee") and ns != "numpy":
